@@ -7,7 +7,6 @@ import (
 	"testing"
 
 	"github.com/WuKongIM/WuKongIM/pkg/zzverif/ev"
-	"github.com/WuKongIM/WuKongIM/pkg/zzverif/mc"
 )
 
 func TestVerifC04(t *testing.T) {
@@ -15,17 +14,14 @@ func TestVerifC04(t *testing.T) {
 	defer r.Finish()
 	o := vwOpts{
 		prop: "C04", cmds: 2, maxInstalls: ev.Pick(r, 3, 4), maxCrashes: 1, maxOutages: ev.Pick(r, 0, 1), retained: 2,
-		evPrev: true, evSame: true, evOlder: true, evFence: true, evEpoch: true, evLocalLost: true, evTrailing: r.Thorough(),
+		evPrev: true, evSame: true, evOlder: true, evFence: true, evEpoch: true, epochAnyNode: r.Thorough(), evLocalLost: true, evTrailing: r.Thorough(),
 		oC04: true, reportKF: false,
 	}
 	st := &vwStats{}
-	depth, devs := vwDebugBounds(ev.Pick(r, 4, 5), ev.Pick(r, 2, 2))
-	res := mc.Run(r, mc.System{
-		Name: "replication-world/C04", New: func() mc.Instance { return newVW(o, st) },
-		MaxDepth: depth, MaxDeviations: devs,
-		Bounds: vwBounds(o),
-		Note:   "N=3 voters, Q=2, one channel; authorities (epoch, term, fence) allocated by next-term, fence, unfence and next-epoch installs plus synthetic older authorities; initial state: node 1 installed under (1,1,1); a path ends (silently, counted) at a transition that matches the known C01 defect KF-C01-1",
-	})
+	note := "N=3 voters, Q=2, one channel; authorities (epoch, term, fence) allocated by next-term, fence, unfence and next-epoch installs plus synthetic older authorities; initial state: node 1 installed under (1,1,1); a path ends (silently, counted) at a transition that matches the known C01 defect KF-C01-1"
+	res := vwRun(r, "replication-world/C04/deep", o, st, ev.Pick(r, 4, 5), ev.Pick(r, 1, 2), note)
+	res2 := vwRun(r, "replication-world/C04/faulty", o, st, ev.Pick(r, 3, 6), ev.Pick(r, 2, 1), note)
+	res.States += res2.States
 	vwAssumptions(r)
 	vwCounters(r, st)
 	if r.Replay() != nil {
